@@ -11,6 +11,12 @@
                             white space (4 labels), '-' (break inside a name, else falls through), delimiters, ':'
                             (falls through), default.  The three look-around guards are also matched one by one so
                             that the message names the guard that was edited.
+  repairs under development (each site: exactly one of the two shapes, anything else AnchorError)
+      gen_xpc_fix_name_chars   NodeTest() (whole body matched): `else if (XalanQName::isValidNCName(m_token) == false) error`
+                               between the isNodeTest test and the final else pushing the token
+      gen_xpc_fix_dot_token    tokenize() default case: a leading branch making '.' / '..' not followed by a digit tokens
+      gen_xpc_fix_ascii_digit  the digit predicate of tokenize() and PrimaryExpr(): XalanXMLChar::isDigit at all sites, or the
+                               file-static isNumberDigit ('0'..'9', body matched, defined before tokenize()) at all sites
   s_orString ... s_axisString   code units, and the place each is used by the parser
   XPathExpression::eOpCodes every enumerator has an explicit value (the trailing eOpCodeNextAvailable excepted)
   s_axisTable / s_nodeTypeTable / s_functionTable   rows, strictly ascending in the order of compare() = doCompare()
@@ -189,12 +195,96 @@ _T_DELIM = "{" + _T_FLUSH + " substring(pat, theToken, i, i + 1); " + _G_LOOKBAC
 _T_COLON = """{ if(posOfNSSep == i - 1 && i > 0) { if(startSubstring != XalanDOMString::npos) { if (startSubstring < i - 1) { substring(pat, theToken, startSubstring, i - 1);
     addToTokenQueue(theToken); } } startSubstring = XalanDOMString::npos; posOfNSSep = XalanDOMString::npos; substring(pat, theToken, i - 1, i + 1); addToTokenQueue(theToken); break; }
     else { posOfNSSep = i; } }"""
-_G_NUMBER = "if (XalanXMLChar::isDigit(c) == true || (c == XalanUnicode::charFullStop && i + 1 < nChars && XalanXMLChar::isDigit(pat[i + 1]) == true))"
-_T_DEFAULT = "{ if(XalanDOMString::npos == startSubstring) { startSubstring = i; " + _G_NUMBER + """ { bool gotFullStop = c == XalanUnicode::charFullStop;
+# @D@ stands for the digit predicate of the number scan (see _digit_predicate): XalanXMLChar::isDigit or isNumberDigit
+_G_NUMBER = "if (@D@(c) == true || (c == XalanUnicode::charFullStop && i + 1 < nChars && @D@(pat[i + 1]) == true))"
+_T_NAME_OR_NUMBER = "{ startSubstring = i; " + _G_NUMBER + """ { bool gotFullStop = c == XalanUnicode::charFullStop;
     while(i < nChars - 1) { ++i; const XalanDOMChar currentChar = pat[i];
         if (currentChar == XalanUnicode::charFullStop) { if (gotFullStop == false) { gotFullStop = true; } else { --i; break; } }
-        else if (XalanXMLChar::isDigit(currentChar) == false) { --i; break; } }
-    substring(pat, theToken, startSubstring, i + 1); addToTokenQueue(theToken); startSubstring = XalanDOMString::npos; } } }"""
+        else if (@D@(currentChar) == false) { --i; break; } }
+    substring(pat, theToken, startSubstring, i + 1); addToTokenQueue(theToken); startSubstring = XalanDOMString::npos; } }"""
+# the default case as it was / with the repair "dot-token" ('.' and '..' not followed by a digit are tokens of their own)
+_T_DEFAULT = "{ if(XalanDOMString::npos == startSubstring) " + _T_NAME_OR_NUMBER + " }"
+_G_DOT = "if(XalanDOMString::npos == startSubstring && c == XalanUnicode::charFullStop && (i + 1 >= nChars || @D@(pat[i + 1]) == false))"
+_T_DEFAULT_DOT = "{ " + _G_DOT + """ { if (i + 1 < nChars && pat[i + 1] == XalanUnicode::charFullStop) { substring(pat, theToken, i, i + 2); ++i; }
+    else { substring(pat, theToken, i, i + 1); } addToTokenQueue(theToken); }
+    else if(XalanDOMString::npos == startSubstring) """ + _T_NAME_OR_NUMBER + " }"
+_DIGIT_OLD = "XalanXMLChar::isDigit"
+_DIGIT_NEW = "isNumberDigit"
+_T_DIGIT_HELPER = "static inline bool isNumberDigit(XalanDOMChar c) { return c >= XalanUnicode::charDigit_0 && c <= XalanUnicode::charDigit_9; }"
+
+
+def _digit_predicate(cpp, uni):
+    """The digit test of the number scan in tokenize() and of the number branch of PrimaryExpr(): either
+    XalanXMLChar::isDigit at ALL its sites (as it was) or, with the repair "ascii-digit", the file-static helper
+    isNumberDigit (body matched exactly, '0'..'9') at ALL of them.  Returns (predicate, repaired)."""
+    what = "XPathProcessorImpl.cpp digit predicate"
+    cn = _squeeze(cpp)
+    tok = _squeeze(function_body(cpp, r"\nXPathProcessorImpl::tokenize\s*\(\s*const\s+XalanDOMString\s*&\s*pat\s*\)\s*\{", "XPathProcessorImpl::tokenize"))
+    pe = _squeeze(function_body(cpp, r"\nXPathProcessorImpl::PrimaryExpr\s*\(\s*\)\s*\{", "XPathProcessorImpl::PrimaryExpr"))
+    rx_old = r"(?<![A-Za-z0-9_:])XalanXMLChar::isDigit\("
+    rx_new = r"(?<![A-Za-z0-9_:])isNumberDigit\("
+    old_sites = len(re.findall(rx_old, tok)) + len(re.findall(rx_old, pe))
+    new_sites = len(re.findall(rx_new, tok)) + len(re.findall(rx_new, pe))
+    mentions_new = len(re.findall(r"(?<![A-Za-z0-9_])isNumberDigit(?![A-Za-z0-9_])", cn))
+    if len(re.findall(r"(?<![A-Za-z0-9_])isDigit(?![A-Za-z0-9_])", tok + pe)) != old_sites:
+        raise AnchorError(what + ": an isDigit that is not XalanXMLChar::isDigit( in tokenize() / PrimaryExpr()")
+    if mentions_new == 0:
+        if old_sites == 0:
+            raise AnchorError(what + ": neither XalanXMLChar::isDigit nor isNumberDigit is used by tokenize() / PrimaryExpr()")
+        return _DIGIT_OLD, False
+    if old_sites != 0:
+        raise AnchorError(what + ": XalanXMLChar::isDigit and isNumberDigit are both used (%d / %d sites): the repair is partial" % (old_sites, new_sites))
+    helper = _squeeze(_T_DIGIT_HELPER)
+    if cn.count(helper) != 1 or len(re.findall(r"(?<![A-Za-z0-9_])isNumberDigit\(XalanDOMChar", cn)) != 1:
+        raise AnchorError(what + ": isNumberDigit is not the file-static helper { return c >= XalanUnicode::charDigit_0 && c <= XalanUnicode::charDigit_9; }")
+    if not cn.index(helper) < cn.index("XPathProcessorImpl::tokenize(const XalanDOMString&pat){"):
+        raise AnchorError(what + ": isNumberDigit is not defined before tokenize()")
+    if uni.get("charDigit_0") != 0x30 or uni.get("charDigit_9") != 0x39:
+        raise AnchorError("XalanUnicode.hpp: charDigit_0 / charDigit_9 are not 0x30 / 0x39")
+    if "isNumberDigit" in _squeeze(strip_comments(read(PI_HPP))):
+        raise AnchorError(what + ": XPathProcessorImpl.hpp mentions isNumberDigit too")
+    if new_sites == 0 or mentions_new != new_sites + 1:
+        raise AnchorError(what + ": isNumberDigit is used outside tokenize() / PrimaryExpr() (or not at all)")
+    return _DIGIT_NEW, True
+
+
+def _primary_expr(cpp, D):
+    what = "XPathProcessorImpl::PrimaryExpr"
+    pe = _squeeze(function_body(cpp, r"\nXPathProcessorImpl::PrimaryExpr\s*\(\s*\)\s*\{", what))
+    need(_lit("""else if((tokenIs(XalanUnicode::charFullStop) == true && m_token.length() > 1 && @D@(m_token[1]) == true) || @D@(m_tokenChar) == true)
+        { m_expression->appendOpCode(XPathExpression::eOP_NUMBERLIT); Number(); m_expression->updateOpCodeLength( XPathExpression::eOP_NUMBERLIT, opPos); }""".replace("@D@", D)), pe,
+         what + ": the number branch ('.' + digit, or a digit) with the digit predicate " + D, 0)
+    if pe.count(D + "(") != 2:
+        raise AnchorError(what + ": %s is used %d times, not 2" % (D, pe.count(D + "(")))
+
+
+# NodeTest(): everything up to the tests of an unprefixed / local name, then the chain as it was / with the repair "name-chars"
+_T_NODETEST_HEAD = """{ assert(m_xpath != 0); assert(m_expression != 0); int nodeTestPos = -1;
+    if (lookahead(XalanUnicode::charLeftParenthesis, 1) == true) { const XPathExpression::eOpCodes theOpCode = getNodeTypeToken(m_token);
+        if (theOpCode == XPathExpression::eENDOP) { error( XalanMessages::UnknownNodeType_1Param, m_token); }
+        else { nextToken(); nodeTestPos = m_expression->appendOpCode(theOpCode); consumeExpected(XalanUnicode::charLeftParenthesis);
+            if(XPathExpression::eNODETYPE_PI == theOpCode) { if(tokenIs(XalanUnicode::charRightParenthesis) == false) { Literal(); } }
+            consumeExpected(XalanUnicode::charRightParenthesis); } }
+    else { m_expression->appendOpCode(XPathExpression::eNODENAME);
+        if(lookahead(XalanUnicode::charColon, 1) == true) {
+            if(tokenIs(XalanUnicode::charAsterisk) == true) { m_expression->appendOpCode(XPathExpression::eELEMWILDCARD); }
+            else { replaceTokenWithNamespaceToken(); m_expression->pushCurrentTokenOnOpCodeMap(); }
+            nextToken(); consumeExpected(XalanUnicode::charColon); }
+        else { m_expression->appendOpCode(XPathExpression::eEMPTY); }
+        if (tokenIs(XalanUnicode::charAsterisk) == true) { m_expression->appendOpCode(XPathExpression::eELEMWILDCARD); }
+        else if (isNodeTest(m_token) == false) { error(XalanMessages::ExpectedNodeTest); }"""
+_T_NODETEST_NCNAME = " else if (XalanQName::isValidNCName(m_token) == false) { error( XalanMessages::NotValidNCName_1Param, m_token); }"
+_T_NODETEST_TAIL = " else { m_expression->pushCurrentTokenOnOpCodeMap(); } nextToken(); } return nodeTestPos; }"
+
+
+def _node_test(cpp):
+    what = "XPathProcessorImpl::NodeTest"
+    b = _squeeze(function_body(cpp, r"\nXPathProcessorImpl::NodeTest\s*\(\s*\)\s*\{", what))
+    if b == _squeeze(_T_NODETEST_HEAD + _T_NODETEST_TAIL):
+        return False
+    if b == _squeeze(_T_NODETEST_HEAD + _T_NODETEST_NCNAME + _T_NODETEST_TAIL):
+        return True
+    raise AnchorError(what + ": neither the body the model was written from nor that body with the isValidNCName test of the name (repair name-chars)")
 _T_PROLOGUE = """{ assert(m_xpath != 0); assert(m_expression != 0); assert(m_constructionContext != 0);
     m_expression->setCurrentPattern(m_constructionContext->getPooledString(pat)); const t_size_type nChars = pat.length();
     t_size_type startSubstring = XalanDOMString::npos; t_size_type posOfNSSep = XalanDOMString::npos;
@@ -205,7 +295,7 @@ _T_EPILOGUE = """} if(startSubstring != XalanDOMString::npos) { if(XalanDOMStrin
     if (0 == m_expression->tokenQueueSize()) { error(XalanMessages::EmptyExpression); } m_expression->resetTokenPosition(); }"""
 
 
-def _tokenize(cpp, uni):
+def _tokenize(cpp, uni, D):
     what = "XPathProcessorImpl::tokenize"
     body = _squeeze(function_body(cpp, r"\nXPathProcessorImpl::tokenize\s*\(\s*const\s+XalanDOMString\s*&\s*pat\s*\)\s*\{", what))
     pro = _squeeze(_T_PROLOGUE)
@@ -217,7 +307,7 @@ def _tokenize(cpp, uni):
     # the three look-around guards, one by one (better message than the group comparison below)
     need(_lit(_G_LOOKBACK_IF + _G_LOOKBACK_BODY), sw, what + ": the '=' / '/' look-back over white space (\"< =\", \"/ /\" refused)", 0)
     need(_lit(_G_DOLLAR), sw, what + ": the guard refusing '$' followed by white space", 0)
-    need(_lit(_G_NUMBER), sw, what + ": the number scan is entered for a digit or for '.' followed by a digit", 0)
+    need(_lit(_G_NUMBER.replace("@D@", D)), sw, what + ": the number scan is entered for a digit or for '.' followed by a digit (digit predicate %s)" % D, 0)
     groups = _switch_groups(sw, what)
     shape = [len(g[0]) for g in groups]
     if len(groups) != 7:
@@ -239,8 +329,17 @@ def _tokenize(cpp, uni):
         raise AnchorError(what + ": the delimiter group's statements are not the ones the model was written from")
     if lc != ["XalanUnicode::charColon"] or bc != _squeeze(_T_COLON):
         raise AnchorError(what + ": case ':' is not the one the model was written from")
-    if lz != [None] or bz != _squeeze(_T_DEFAULT):
-        raise AnchorError(what + ": the default case (name start / number scan) is not the one the model was written from")
+    if lz != [None]:
+        raise AnchorError(what + ": the last case group is not default alone")
+    if bz == _squeeze(_T_DEFAULT.replace("@D@", D)):
+        fix_dot = False
+    elif bz == _squeeze(_T_DEFAULT_DOT.replace("@D@", D)):
+        fix_dot = True
+    else:
+        raise AnchorError(what + ": the default case (name start / number scan) is neither the one the model was written from nor that one "
+                          "with the leading '.' / '..' token branch (repair dot-token); digit predicate " + D)
+    if sw.count(D + "(") != (4 if fix_dot else 3):
+        raise AnchorError(what + ": unexpected number of calls of " + D)
     ws = [_char(uni, x, what + " white-space label") for x in lw]
     delims = [_char(uni, x, what + " delimiter label") for x in ld]
     alll = [uni["charQuoteMark"], uni["charApostrophe"]] + ws + [uni["charHyphenMinus"]] + delims + [uni["charColon"]]
@@ -250,7 +349,7 @@ def _tokenize(cpp, uni):
     for nm in ("charEqualsSign", "charSolidus", "charDollarSign", "charExclamationMark", "charLessThanSign", "charGreaterThanSign"):
         if uni[nm] not in delims:
             raise AnchorError(what + ": XalanUnicode::%s is not a label of the delimiter group" % nm)
-    return ws, delims, srcfacts.fingerprint(body)
+    return ws, delims, srcfacts.fingerprint(body), fix_dot
 
 
 # ---------------------------------------------------------------------------------------------- character classes
@@ -454,6 +553,10 @@ def _n(x):
     return "%d%%N" % x
 
 
+def _b(v):
+    return "true" if v else "false"
+
+
 def _nl(xs):
     return "[" + "; ".join(_n(x) for x in xs) + "]"
 
@@ -501,7 +604,10 @@ def gen_xpc():
     # ---- character classes
     cls, runs = _charclasses()
     # ---- tokenizer
-    tok_ws, tok_delims, tok_fp = _tokenize(cpp, uni)
+    D, fix_digit = _digit_predicate(cpp, uni)
+    tok_ws, tok_delims, tok_fp, fix_dot = _tokenize(cpp, uni, D)
+    _primary_expr(cpp, D)
+    fix_name = _node_test(cpp)
     # ---- strings
     fstrings, installed = _installed(uni)
     pstrings = _string_arrays(cpp, "XPathProcessorImpl", uni)
@@ -551,6 +657,9 @@ def gen_xpc():
          "From Coq Require Import List NArith.", "Import ListNotations.", "",
          "(* XPathProcessorImpl.hpp enum eMaximumNestingDepth; Expr() (and %d other place(s)) refuse(s) ++m_nestingDepth > this *)" % (guards - 1),
          "Definition gen_xpc_max_nesting : nat := %d." % max_nesting,
+         "Definition gen_xpc_fix_name_chars : bool := %s.   (* NodeTest(): unprefixed name tests are checked with isValidNCName *)" % _b(fix_name),
+         "Definition gen_xpc_fix_dot_token : bool := %s.    (* tokenize(): '.' / '..' not followed by a digit are tokens of their own *)" % _b(fix_dot),
+         "Definition gen_xpc_fix_ascii_digit : bool := %s.  (* number scan / PrimaryExpr(): digits are '0'..'9' *)" % _b(fix_digit),
          "(* PlatformSupport/XalanXMLChar.cpp theUnicodeTable as maximal runs (lo, hi, class), ascending; class XML_XX (0) omitted *)",
          "Definition gen_xpc_charclass_ranges : list (N * N * N) := %s." % _wrapped(["(%s, %s, %s)" % (_n(a), _n(b), _n(c)) for a, b, c in runs])]
     for k in ("BC", "ID", "EX", "DI", "CC", "WS"):
@@ -576,7 +685,7 @@ def gen_xpc():
     too_long = [ln for ln in text.split("\n") if len(ln) >= 200]
     if too_long:
         raise AnchorError("gen_xpc: generated line of %d characters" % len(too_long[0]))
-    facts = {"max_nesting": max_nesting, "nesting_guards": guards, "charclass_runs": len(runs), "classes": cls,
+    facts = {"fix_name_chars": bool(fix_name), "fix_dot_token": bool(fix_dot), "fix_ascii_digit": bool(fix_digit), "max_nesting": max_nesting, "nesting_guards": guards, "charclass_runs": len(runs), "classes": cls,
              "tok_ws": tok_ws, "tok_delims": tok_delims, "tokenize_fingerprint": tok_fp,
              "opcodes_positive": len(pos_ops), "axis_rows": len(axis), "nodetype_rows": len(nodetype), "function_rows": len(function),
              "installed_rows": len(installed), "func_arity": [[l, f, lo, hi] for l, f, lo, hi in calls],
